@@ -26,7 +26,8 @@ type GenOpts struct {
 
 var (
 	plainLocals = []string{"a", "b", "c", "d", "x", "item"}
-	weirdLocals = []string{"a-1", "b.c", "x2", "child", "text", "self", "node", "comment", "parent", "attribute", "ab-cd.e9", "#h"}
+	weirdLocals = []string{"a-1", "b.c", "x2", "child", "text", "self", "node", "comment", "parent", "attribute", "ab-cd.e9",
+		"ancestor", "preceding", "following", "descendant", "ancestors", "preceding-item", "namespace", "ancestor-or-self", "following-sibling", "#h"}
 	uris        = []string{"urn:a", "urn:b", "http://x.y/z"}
 	prefixes    = []string{"p", "q", "r"}
 	attrLocals  = []string{"id", "k", "n", "v"}
@@ -159,7 +160,7 @@ func (g *gen) decorate(e *Node) {
 	for i := 0; i < na; i++ {
 		space, local := "", rng.Pick(r, attrLocals)
 		if g.o.Weird && r.P(10) {
-			local = rng.Pick(r, weirdLocals[:11])
+			local = rng.Pick(r, weirdLocals[:len(weirdLocals)-1])
 		}
 		if g.o.NS > 0 && r.P(25) {
 			space = rng.Pick(r, uris)
@@ -173,7 +174,24 @@ func (g *gen) decorate(e *Node) {
 		g.budget--
 	}
 	if g.o.Lang && r.P(30) && !used[XMLNS+"|lang"] {
+		// now and then next to attributes that are merely called lang (XHTML's lang, a foreign o:lang)
+		other := func() {
+			if r.P(25) {
+				space := ""
+				if g.o.NS > 0 && r.Bool() {
+					space = rng.Pick(r, uris)
+				}
+				if !used[space+"|lang"] {
+					used[space+"|lang"] = true
+					g.d.AddAttr(e, space, "lang", rng.Pick(r, langTags))
+				}
+			}
+		}
+		other()
 		g.d.AddAttr(e, XMLNS, "lang", rng.Pick(r, langTags))
+		other()
+	} else if g.o.Lang && r.P(8) {
+		g.d.AddAttr(e, "", "lang", rng.Pick(r, langTags))
 	}
 }
 
@@ -195,7 +213,7 @@ func (g *gen) misc(parent *Node) {
 	if r.P(50) {
 		g.d.AddComment(parent, rng.Pick(r, []string{"c", " a comment ", "", "12", "x-y"}))
 	} else {
-		g.d.AddPI(parent, rng.Pick(r, piTargets), rng.Pick(r, []string{"", "d", "a=\"1\"", "12"}))
+		g.d.AddPI(parent, rng.Pick(r, piTargets), rng.Pick(r, []string{"", "d", "a=\"1\"", "12", "d ", "a  b \t", "1 ", "x\n", "a ? b", "7\n "}))
 	}
 	g.budget--
 }
